@@ -60,6 +60,9 @@ def red_sympy(expr, p: int) -> list[int]:
     import sympy
 
     expr = sympy.sympify(expr)
+    if expr.free_symbols:
+        # a term of a series built from a sympy matrix carries its monomial: set the parameters to 1
+        expr = expr.subs({x: 1 for x in expr.free_symbols})
     if not expr.is_Rational:
         expr = sympy.expand(expr)
     re_, im_ = expr.as_real_imag()
